@@ -329,6 +329,9 @@ impl Report {
         // enumeration count checks
         let counts = self.counts.lock().unwrap().clone();
         for (label, exp, got) in &counts {
+            if *exp == u64::MAX {
+                continue; // cross-check skipped (space above the single-threaded count cap)
+            }
             if exp != got && !self.stopped() {
                 self.exhaustive.store(false, Ordering::Relaxed);
                 self.machinery_failure(format!(
@@ -367,7 +370,11 @@ impl Report {
             "enumeration_counts".into(),
             json!(counts
                 .iter()
-                .map(|(l, e, g)| json!({"space": l, "closed_form": e, "counted": g}))
+                .map(|(l, e, g)| if *e == u64::MAX {
+                    json!({"space": l, "closed_form": "not cross-checked (above the single-threaded count cap)", "counted": g})
+                } else {
+                    json!({"space": l, "closed_form": e, "counted": g})
+                })
                 .collect::<Vec<_>>()),
         );
         cov.insert(
